@@ -1,7 +1,7 @@
 """spyne/server/wsgi.py (the bounded request-body reader)  ->  Gen/WsgiReader.v
 
-The statement skeleton of ``WsgiApplication.__wsgi_input_to_iterable`` and
-``WsgiApplication.__read_wsgi_input`` is compared, token for token (``ast.unparse`` of the
+The statement skeleton of ``WsgiApplication.__wsgi_input_to_iterable`` and of the private generator
+it returns (``__read_wsgi_input``) is compared, token for token (``ast.unparse`` of the *normalised*
 function with the decisive expressions cut out), with the skeleton the hand-written loop of
 coq/C13/Model.v mirrors; the decisive expressions themselves - the comparison of the declared
 length with the limit, the loop condition, the size of the next read, the guard inside the loop,
@@ -13,8 +13,27 @@ Unlike the other translators this one always writes a compilable file: when the 
 the expected one (e.g. the unrepaired tree) it writes ``shape_ok := false`` together with the
 expressions of the repaired reader, and harness/c13.py reports the tie as broken.  A build of the
 whole development therefore never fails because of the shape of wsgi.py.
+
+Normalisation (behaviour-preserving by construction, everything else still fails closed):
+
+* the two functions are found by *following the calls*: the entry is the name-mangled private method
+  ``__reconstruct_wsgi_request`` returns a call of (``__wsgi_input_to_iterable`` when it exists), the
+  generator is the name-mangled private method of the same class the entry returns a call of.  A
+  ``self.__x`` reference inside the class body can only reach ``_WsgiApplication__x``, so the private
+  names are bound names like locals; each must be defined exactly once in the class;
+* single-assignment temporaries holding a *pure* expression (locals, ``self.<attr>``, int constants,
+  ``+``/``-``, comparisons, ``min``/``max``/``len``) whose every use lies in the directly following
+  pure assignments (or the test of a directly following ``if``) of the same block, with no operand
+  rebound in between, are substituted into their uses (``a = self.block_length; b = length - n;
+  m = min(a, b)`` == ``m = min(self.block_length, length - n)``);
+* parameters and locals are alpha-renamed, by order of first binding, to the names of the skeleton;
+  refused when a free (global / builtin) name of the function would be captured, when the number of
+  bound names differs, or when the function has nested scopes, ``global``/``nonlocal`` or looks at
+  its own namespace (``locals``/``vars``/``eval``/``exec``/``dir``/``globals``).
+
+Exception classes, call targets, message texts, statement order and every operator stay pinned.
 """
-import ast, copy, os
+import ast, collections, copy, os
 
 from .pyexpr import TranslateError
 
@@ -132,15 +151,6 @@ class Expr(object):
         raise TranslateError('%s: unsupported boolean expression %s' % (self.hole, ast.unparse(n)))
 
 
-def _find(tree, cls, name):
-    for c in tree.body:
-        if isinstance(c, ast.ClassDef) and c.name == cls:
-            for f in c.body:
-                if isinstance(f, ast.FunctionDef) and f.name == name:
-                    return f
-    raise TranslateError('%s.%s not found' % (cls, name))
-
-
 def _strip_doc(fn):
     fn = copy.deepcopy(fn)
     if fn.body and isinstance(fn.body[0], ast.Expr) and isinstance(fn.body[0].value, ast.Constant) \
@@ -150,9 +160,239 @@ def _strip_doc(fn):
     return fn
 
 
+ENTRY, READER, CALLER = '__wsgi_input_to_iterable', '__read_wsgi_input', '__reconstruct_wsgi_request'
+PURE_CALLS = ('min', 'max', 'len')
+NAMESPACE_PEEKERS = ('locals', 'vars', 'eval', 'exec', 'dir', 'globals', 'compile', '__import__')
+
+
+def _private(name):
+    return isinstance(name, str) and name.startswith('__') and not name.endswith('__')
+
+
+def _class(tree, cls):
+    found = [c for c in tree.body if isinstance(c, ast.ClassDef) and c.name == cls]
+    if len(found) != 1:
+        raise TranslateError('class %s is defined %d times' % (cls, len(found)))
+    return found[0]
+
+
+def _method(cdef, name):
+    """the one and only binding of `name` in the class body must be a plain def"""
+    found = [f for f in cdef.body if isinstance(f, ast.FunctionDef) and f.name == name]
+    other = [n for st in cdef.body if not isinstance(st, ast.FunctionDef) for n in ast.walk(st)
+             if (isinstance(n, ast.Name) and isinstance(n.ctx, ast.Store) and n.id == name)
+             or (isinstance(n, (ast.AsyncFunctionDef, ast.ClassDef)) and n.name == name)]
+    if len(found) != 1 or other:
+        raise TranslateError('%s.%s is bound %d times in the class body' % (cdef.name, name, len(found) + len(other)))
+    if found[0].decorator_list:
+        raise TranslateError('%s.%s is decorated' % (cdef.name, name))
+    return found[0]
+
+
+def _self_call(node, fn, what):
+    """node must be self.__x(...) with a name-mangled __x; returns the Attribute node"""
+    if not (isinstance(node, ast.Call) and isinstance(node.func, ast.Attribute) and isinstance(node.func.value, ast.Name)
+            and fn.args.args and node.func.value.id == fn.args.args[0].arg and _private(node.func.attr)):
+        raise TranslateError('%s: %s is not a call of a private method of the same class' % (fn.name, what))
+    return node.func
+
+
+def _params(fn):
+    a = fn.args
+    return [x.arg for x in a.posonlyargs + a.args] + ([a.vararg.arg] if a.vararg else []) + \
+           [x.arg for x in a.kwonlyargs] + ([a.kwarg.arg] if a.kwarg else [])
+
+
+def _walk_in_order(node):
+    yield node
+    for c in ast.iter_child_nodes(node):
+        for x in _walk_in_order(c):
+            yield x
+
+
+def _bound(fn):
+    """parameters, then every other name the function binds, by order of first binding in the source"""
+    out = _params(fn)
+    for st in fn.body:
+        for n in _walk_in_order(st):
+            if isinstance(n, (ast.FunctionDef, ast.AsyncFunctionDef, ast.ClassDef, ast.Lambda, ast.ListComp, ast.SetComp,
+                              ast.DictComp, ast.GeneratorExp, ast.Global, ast.Nonlocal, ast.Import, ast.ImportFrom,
+                              ast.NamedExpr, ast.Match)):
+                raise TranslateError('%s: %s inside the reader is not modelled' % (fn.name, type(n).__name__))
+            if isinstance(n, ast.Name) and isinstance(n.ctx, ast.Load) and n.id in NAMESPACE_PEEKERS:
+                raise TranslateError('%s: uses %s' % (fn.name, n.id))
+            name = n.id if isinstance(n, ast.Name) and isinstance(n.ctx, (ast.Store, ast.Del)) else \
+                n.name if isinstance(n, ast.ExceptHandler) and n.name else None
+            if name is not None and name not in out:
+                out.append(name)
+    return out
+
+
+def _is_pure(n, bound, selfname):
+    """an expression without effects whose value depends only on locals and attributes of self"""
+    if isinstance(n, ast.Constant):
+        return n.value is None or type(n.value) in (int, bool)
+    if isinstance(n, ast.Name):
+        return isinstance(n.ctx, ast.Load) and n.id in bound
+    if isinstance(n, ast.Attribute):
+        return isinstance(n.ctx, ast.Load) and isinstance(n.value, ast.Name) and n.value.id == selfname
+    if isinstance(n, ast.BinOp):
+        return isinstance(n.op, (ast.Add, ast.Sub)) and _is_pure(n.left, bound, selfname) and _is_pure(n.right, bound, selfname)
+    if isinstance(n, ast.UnaryOp):
+        return isinstance(n.op, (ast.Not, ast.USub)) and _is_pure(n.operand, bound, selfname)
+    if isinstance(n, ast.BoolOp):
+        return all(_is_pure(v, bound, selfname) for v in n.values)
+    if isinstance(n, ast.Compare):
+        return all(isinstance(o, (ast.Lt, ast.LtE, ast.Gt, ast.GtE, ast.Eq, ast.NotEq, ast.Is, ast.IsNot)) for o in n.ops) \
+            and all(_is_pure(v, bound, selfname) for v in [n.left] + n.comparators)
+    if isinstance(n, ast.Call):
+        return isinstance(n.func, ast.Name) and n.func.id in PURE_CALLS and n.func.id not in bound and not n.keywords \
+            and all(_is_pure(a, bound, selfname) for a in n.args)
+    return False
+
+
+def _blocks(fn):
+    for n in ast.walk(fn):
+        for f in ('body', 'orelse', 'finalbody'):
+            b = getattr(n, f, None)
+            if isinstance(b, list) and b and isinstance(b[0], ast.stmt):
+                yield b
+
+
+class _Subst(ast.NodeTransformer):
+    def __init__(self, name, value):
+        self.name, self.value, self.n = name, value, 0
+
+    def visit_Name(self, node):
+        if node.id == self.name and isinstance(node.ctx, ast.Load):
+            self.n += 1
+            return copy.deepcopy(self.value)
+        return node
+
+
+def _inline_temporaries(fn):
+    """t = <pure>; ...pure assignments / one `if <pure>:` using t...   ==   the same with <pure> in place of t"""
+    bound = set(_bound(fn))
+    if not fn.args.args:
+        return
+    selfname = fn.args.args[0].arg
+
+    def pure_assign(st):
+        return isinstance(st, ast.Assign) and len(st.targets) == 1 and isinstance(st.targets[0], ast.Name) \
+            and _is_pure(st.value, bound, selfname)
+
+    def once():
+        stores = collections.Counter(_params(fn))
+        loads = collections.Counter()
+        for n in ast.walk(fn):
+            if isinstance(n, ast.Name):
+                (loads if isinstance(n.ctx, ast.Load) else stores)[n.id] += 1
+            elif isinstance(n, ast.ExceptHandler) and n.name:
+                stores[n.name] += 1
+            elif isinstance(n, ast.AugAssign) and isinstance(n.target, ast.Name):
+                loads[n.target.id] += 1      # x += e reads x
+        for block in _blocks(fn):
+            for i, st in enumerate(block):
+                if not pure_assign(st):
+                    continue
+                t = st.targets[0].id
+                if stores[t] != 1 or loads[t] == 0:
+                    continue
+                reads = {n.id for n in ast.walk(st.value) if isinstance(n, ast.Name)}
+                sites = []          # (statement, attribute holding the expression evaluated there)
+                for nxt in block[i + 1:]:
+                    if pure_assign(nxt):
+                        sites.append((nxt, 'value'))
+                        if nxt.targets[0].id in reads:
+                            break   # an operand of the temporary is rebound: later uses would see the new value
+                    else:
+                        if isinstance(nxt, ast.If) and _is_pure(nxt.test, bound, selfname):
+                            sites.append((nxt, 'test'))
+                        break
+                used = sum(1 for s, f in sites for n in ast.walk(getattr(s, f))
+                           if isinstance(n, ast.Name) and n.id == t and isinstance(n.ctx, ast.Load))
+                if used != loads[t]:
+                    continue        # used somewhere else as well: keep it (the skeleton comparison decides)
+                for s, f in sites:
+                    setattr(s, f, _Subst(t, st.value).visit(getattr(s, f)))
+                del block[i]
+                return True
+        return False
+
+    for _ in range(64):
+        if not once():
+            return
+    raise TranslateError('%s: temporaries do not reach a fixed point' % fn.name)
+
+
+class _Rename(ast.NodeTransformer):
+    def __init__(self, table):
+        self.table = table
+
+    def visit_Name(self, node):
+        node.id = self.table.get(node.id, node.id)
+        return node
+
+    def visit_arg(self, node):
+        node.arg = self.table.get(node.arg, node.arg)
+        return node
+
+    def visit_ExceptHandler(self, node):
+        if node.name:
+            node.name = self.table.get(node.name, node.name)
+        return self.generic_visit(node)
+
+
+def _alpha(fn, skeleton):
+    """rename the bound names of fn, by order of first binding, to those of the skeleton"""
+    want = _bound(ast.parse(skeleton).body[0])
+    have = _bound(fn)
+    if len(want) != len(have):
+        raise TranslateError('%s binds %d names (%s), the modelled reader %d (%s)'
+                             % (fn.name, len(have), ', '.join(have), len(want), ', '.join(want)))
+    free = {n.id for n in ast.walk(fn) if isinstance(n, ast.Name)} - set(have)
+    captured = free & set(want)
+    if captured:
+        raise TranslateError('%s reads the non-local name(s) %s, which the modelled reader uses for a local'
+                             % (fn.name, ', '.join(sorted(captured))))
+    _Rename(dict(zip(have, want))).visit(fn)
+
+
+def _normalise(fn, skeleton, canonical_name):
+    fn = _strip_doc(fn)
+    fn.name = canonical_name
+    fn.returns = None
+    for a in ast.walk(fn.args):
+        if isinstance(a, ast.arg):
+            a.annotation = None
+    _inline_temporaries(fn)
+    _alpha(fn, skeleton)
+    return fn
+
+
+def _locate(tree):
+    """(entry, reader) as normalised copies; the private names are followed, not pinned"""
+    cdef = _class(tree, 'WsgiApplication')
+    if any(isinstance(f, ast.FunctionDef) and f.name == ENTRY for f in cdef.body):
+        entry = _method(cdef, ENTRY)
+    else:
+        caller = _method(cdef, CALLER)
+        last = caller.body[-1]
+        if not (isinstance(last, ast.Return) and isinstance(last.value, ast.Tuple) and len(last.value.elts) == 2):
+            raise TranslateError('%s does not end in `return <body iterable>, charset`' % CALLER)
+        entry = _method(cdef, _self_call(last.value.elts[0], caller, 'the body iterable it returns').attr)
+    entry = _normalise(entry, SKELETON_1, ENTRY)
+    last = entry.body[-1] if entry.body else None
+    if not isinstance(last, ast.Return):
+        raise TranslateError('%s does not end in a return' % ENTRY)
+    ref = _self_call(last.value, entry, 'what it returns')
+    reader = _normalise(_method(cdef, ref.attr), SKELETON_2, READER)
+    ref.attr = READER
+    return entry, reader
+
+
 def _cut(fn, paths):
     """replace the nodes at `paths` (hole -> accessor) by HOLE names; returns (skeleton text, {hole: node})"""
-    fn = _strip_doc(fn)
     holes = {}
     for hole, (get, put) in paths.items():
         holes[hole] = get(fn)
@@ -194,9 +434,8 @@ def extract(repo):
     src = open(os.path.join(repo, 'spyne', 'server', 'wsgi.py')).read()
     tree = ast.parse(src)
     out = {}
-    for name, skeleton, paths in (('__wsgi_input_to_iterable', SKELETON_1, PATHS_1),
-                                  ('__read_wsgi_input', SKELETON_2, PATHS_2)):
-        fn = _find(tree, 'WsgiApplication', name)
+    entry, reader = _locate(tree)
+    for name, fn, skeleton, paths in ((ENTRY, entry, SKELETON_1, PATHS_1), (READER, reader, SKELETON_2, PATHS_2)):
         try:
             text, holes = _cut(fn, paths)
         except (AttributeError, IndexError, TypeError, KeyError) as e:
